@@ -26,7 +26,11 @@
                      the inverse name), APlain it = a unit of `item`;  full a = the unit it stands for;
      abbrev_ok st p nm   boolean: p is a prefix of nm, and p IS nm or nm is the only long / inverse name of the spec
                      that starts with p (getopt.long_has_args: exact match first, else unique prefix);
-     ambiguous st p  boolean: at least two long / inverse names of the spec start with p and none of them is p. *)
+     ambiguous st p  boolean: at least two long / inverse names of the spec start with p and none of them is p.
+     main_seq eff    (Model/CmdParse.v) a sequence of steps on ONE DoitMain / one config object: SRun argv = DoitMain.run,
+                     SBuild nm = the command nm and its parser are only built; `eff cfg nm` = the config object after the
+                     command nm was built: init_pure (the code: unchanged), init_shared (NOT the code: GLOBAL rewritten);
+                     step_run = what one step observes; seq_config = the config object after the sequence. *)
 From DoitV Require Import Base CmdParse CmdParseP CmdParseR CmdParseS CmdParseA.
 Open Scope string_scope.
 Open Scope list_scope.
@@ -736,6 +740,74 @@ Proof.
   - apply (bad_missing_long run_options (ex_o 10%N)); try reflexivity; try discriminate. vm_compute. auto 20.
   - apply (bad_flag_arg run_options (ex_o 9%N) "1" ["t"]); try reflexivity; try discriminate. vm_compute. auto 20.
 Qed.
+
+(* ---------------------------------------------------------------- several commands, one config object *)
+(* One process, one DoitMain, one config object handed to every command it builds (run called twice through
+   the API, `doit help <cmd>`, tabcompletion): a sequence of steps, each building a command (SBuild) or being
+   a whole DoitMain.run (SRun); main_seq threads the config object through them.
+   HONEST NOTE: for the code (`init_pure`: Command.__init__ builds config_vals in a fresh dict) these
+   statements are reflexivity-level -- the model takes the configuration as a value, so purity holds by
+   construction and the proofs only unfold definitions (Proofs/CmdParseS.v main_seq_pure).  That the real
+   Command.__init__ / DoitMain.run leave the config object alone is established by the correspondence
+   check, not here: harness/c16.py part seq compares what every step of a sequence observes with
+   `seq_scenario` (= main_seq init_pure) and the config object with a deep copy taken before the
+   sequence.  What the statements add is the precise reading of "pure" for sequences, and the contrast
+   with the variant that is NOT the code (`init_shared`, refuted below). *)
+(* every step of a sequence observes what it observes alone on the original configuration *)
+Theorem C16_sequence_pure : forall conv cl env dodo steps,
+  main_seq conv init_pure cl env dodo steps = map (step_run conv cl env dodo) steps.
+Proof. exact main_seq_pure. Qed.
+Print Assumptions C16_sequence_pure.
+
+(* ... and the config object at the end of the sequence is the one it started with *)
+Theorem C16_config_unchanged : forall conv cl steps, seq_config conv init_pure cl steps = c_config cl.
+Proof. exact seq_config_pure. Qed.
+Print Assumptions C16_config_unchanged.
+
+(* whatever was built or run before on the same DoitMain, `doit y` gets the result it gets alone *)
+Theorem C16_commands_independent : forall conv cl env dodo before y,
+  nth_error (main_seq conv init_pure cl env dodo (before ++ [SRun y])) (length before)
+  = Some (ORun (main_run conv cl env dodo y)).
+Proof. exact commands_independent. Qed.
+Print Assumptions C16_commands_independent.
+
+(* the same command line twice on one DoitMain: twice the result of once *)
+Theorem C16_main_run_twice : forall conv cl env dodo a,
+  main_seq conv init_pure cl env dodo [SRun a; SRun a] = [ORun (main_run conv cl env dodo a); ORun (main_run conv cl env dodo a)].
+Proof. exact main_run_twice. Qed.
+Print Assumptions C16_main_run_twice.
+
+(* NOT the code: config_vals aliasing the GLOBAL section of the shared object (`self.config.get('GLOBAL', {})`
+   then `.update(self.config[self.name])`).  doit.cfg: [GLOBAL] dodoFile = g.py  [list] dodoFile = l.py;
+   `doit list` then `doit run` on one DoitMain: `run`, which has no section, gets l.py (alone: g.py), the
+   GLOBAL section of the config object now says l.py; merely BUILDING `list` (help, tabcompletion) does the same *)
+Theorem C16_shared_global_refuted : exists cl env dodo x y,
+  nth_error (main_seq conv_ref init_shared cl env dodo [SRun x; SRun y]) 1 <> Some (ORun (main_run conv_ref cl env dodo y)) /\
+  setup_value (main_run conv_ref cl env dodo y) 5%N = Some (VStr "g.py") /\
+  (exists r, nth_error (main_seq conv_ref init_shared cl env dodo [SRun x; SRun y]) 1 = Some (ORun r) /\ setup_value r 5%N = Some (VStr "l.py")) /\
+  (exists r, nth_error (main_seq conv_ref init_shared cl env dodo [SBuild "list"; SRun y]) 1 = Some (ORun r) /\ setup_value r 5%N = Some (VStr "l.py")) /\
+  seq_config conv_ref init_shared cl [SRun x] <> c_config cl.
+Proof.
+  exists (ex_cli [("GLOBAL", [(5%N, VStr "g.py")]); ("list", [(5%N, VStr "l.py")])]), (env_of []), [], ["list"], ["run"].
+  split; [|split; [|split; [|split]]].
+  - intros H. apply (f_equal (fun o => match o with Some (ORun r) => setup_value r 5%N | _ => None end)) in H.
+    vm_compute in H. discriminate.
+  - vm_compute. reflexivity.
+  - eexists. split; vm_compute; reflexivity.
+  - eexists. split; vm_compute; reflexivity.
+  - vm_compute. intros H. discriminate.
+Qed.
+Print Assumptions C16_shared_global_refuted.
+
+(* non-vacuity / the same inputs on the code: list then run, run then list, build list then run *)
+Example C16_ex_sequence :
+  let cl := ex_cli [("GLOBAL", [(5%N, VStr "g.py")]); ("list", [(5%N, VStr "l.py")])] in
+  (exists r1 r2, main_seq conv_ref init_pure cl (env_of []) [] [SRun ["list"]; SRun ["run"]] = [ORun (Ok r1); ORun (Ok r2)] /\
+                 d_get (r_setup r1) 5%N = Some (VStr "l.py") /\ d_get (r_setup r2) 5%N = Some (VStr "g.py")) /\
+  (exists st r2, main_seq conv_ref init_pure cl (env_of []) [] [SBuild "list"; SRun ["run"]] = [OBuild (Ok tt, st); ORun (Ok r2)] /\
+                 d_get (r_setup r2) 5%N = Some (VStr "g.py")) /\
+  seq_config conv_ref init_pure cl [SRun ["list"]; SBuild "run"; SRun ["run"]] = c_config cl.
+Proof. vm_compute. split; [|split]; [do 2 eexists|do 2 eexists|]; repeat split; reflexivity. Qed.
 
 (* ---------------------------------------------------------------- the code before the repair b063765 *)
 (* `params[name].append(val)` appended to the option's own default list: the parser object changed
